@@ -209,7 +209,7 @@ def run_search(cfg):
                 if stt.requires_dof_transformation:
                     tt = tt @ stt.dof_transformation.toarray()
                 ref = tt.T @ a_d @ td
-                err = float(np.abs(a_s - ref).max()) / max(float(np.abs(a_d).max()), 1e-300)
+                err = float(np.abs(a_s - ref).max()) / max(float(np.abs(a_d).max()), 1e-4)
                 worst = max(worst, err)
                 out["evaluations"] += 1
                 if not err <= 1e-12:
